@@ -828,7 +828,7 @@ pub fn run(ctx: &Ctx) {
         ctx.run("api-designs", CaseCfg::cases(n2).choices(8000).timeout_s(900).shrink_iters(60), |d| api_designs_case(d, cc_ok));
     }
     if only.is_empty() || only == "cli" {
-        let n = std::env::var("C34_CLI_CASES").ok().and_then(|s| s.parse().ok()).unwrap_or(ctx.scale(8, 1500));
+        let n = std::env::var("C34_CLI_CASES").ok().and_then(|s| s.parse().ok()).unwrap_or(ctx.scale(6, 1500));
         let quick = ctx.is_quick();
         let total = std::thread::available_parallelism().map(|n| n.get()).unwrap_or(1);
         ctx.run("cli", CaseCfg::cases(n).choices(6000).threads(total.min(12)).shrink_iters(6).timeout_s(3000), |d| cli_case(d, cc_ok, quick));
